@@ -1094,6 +1094,7 @@ class Transiter(Interrupter):
         framer.renter(reexens)
         framer.enter(enters)
         framer.activate(active = far)
+        Suspender.resuspend(framer)  # main frames kept by the transition stay suspended
         return far
 
     def _expose(self):
@@ -1214,12 +1215,30 @@ class Suspender(Interrupter):
             if aux.done: #if done after this iteraion clean up
                 self.deactivate(aux)
                 framer.reactivate()
+                self.resuspend(framer)  # another conditional aux may still be running
                 return None
 
             # keep lower frames suspended in case a transition restored full outline
             framer.change(main.head, main.headHuman)
             return aux
 
+
+    @staticmethod
+    def resuspend(framer):
+        """
+        Truncate framer's active outline at the top most frame that still has a
+        running conditional aux so the frames below that frame stay suspended.
+        Used after the full outline has been restored by a transition that kept
+        such a frame or by another conditional aux completing.
+        """
+        for frame in framer.active.outline:
+            for act in frame.preacts:
+                if isinstance(act.actor, Suspender):
+                    aux = act.parms.get('aux')
+                    if (isinstance(aux, framing.Framer) and not aux.done and
+                            (not aux.original or aux.main is frame)):
+                        framer.change(frame.head, frame.headHuman)
+                        return
 
     def _expose(self):
         """      """
